@@ -98,10 +98,14 @@ class ParticleReleaser(Iterator[pd.DataFrame]):
         else:
             self._df = self._df[self._df.index >= self.start_time]
 
-        # With warm start skip release at start time (already accounted for)
+        # With warm start skip the releases of the restart step (already accounted for):
+        # every release time before the first time step after the restart
         if warm_start_file:
             logging.debug("warm start in release")
-            self._df = self._df[self._df.index > self.start_time]
+            if timer.time_reversal:
+                self._df = self._df[self._df.index <= self.start_time - timer.dt]
+            else:
+                self._df = self._df[self._df.index >= self.start_time + timer.dt]
 
         # Avoid simulations without particles
         # Cold start and all particles released before start
